@@ -119,7 +119,18 @@ func propC09copy(a *Analysis, r *Registry, b *B) {
 		srcW := env.MustParse("s.Weights")
 		isNil := env.MustParse("s.Weights==nil")
 		wa := w.SingleAtom()
-		if wa == nil || wa.Name != "ite" {
+		// slices.Clone keeps nil nil and copies anything else: exactly the nil-or-copy wanted
+		viaClone := false
+		if wa != nil && wa.Name == "copyof" && wa.Args[0].Equal(srcW) {
+			fc.Ctx.Instrs(func(in ssa.Instruction) {
+				if c, ok := in.(*ssa.Call); ok && c.Call.StaticCallee() != nil && strings.HasPrefix(c.Call.StaticCallee().String(), "slices.Clone[") && fc.Val(c).Equal(w) {
+					viaClone = true
+				}
+			})
+		}
+		if viaClone {
+			r.OK(rule, name+"/Weights", b.pos(fn), "slices.Clone of the receiver's weights: nil stays nil, anything else is copied")
+		} else if wa == nil || wa.Name != "ite" {
 			r.Fail(rule, name+"/Weights", b.pos(fn), "Weights is not nil-or-copy by whether the receiver has weights: "+clip(w.String(), 160))
 		} else {
 			c, whenNil, whenSet := wa.Args[0], wa.Args[1], wa.Args[2]
